@@ -172,6 +172,7 @@ Definition slice_from (d : bytes) (off : nat) : option bytes :=
 Definition get_val (w : nat) (e : tentry) (payload offsets : bytes) (tid : Z) : option bytes :=
   let idx := index_in_block e tid in
   if (idx <? 0)%Z then None      (* uint32 wrap: a huge index *)
+  else if (Z.of_nat (length offsets) <? idx * Z.of_nat w)%Z then None   (* b.offsets[valIndex*4:] out of range *)
   else match slice_from offsets (Z.to_nat idx * w) with
        | None => None
        | Some o =>
